@@ -3,7 +3,9 @@ pub mod c02;
 pub mod c03;
 pub mod c05;
 pub mod c06;
+pub mod c08;
 pub mod c09;
+pub mod c15;
 
 use crate::report::Tier;
 use serde_json::Value;
@@ -15,20 +17,70 @@ pub fn check(id: &str, tier: Tier, seed: u64) -> Option<i32> {
         "C03" => c03::check(tier, seed),
         "C05" => c05::check(tier, seed),
         "C06" => c06::check(tier, seed),
+        "C08" => c08::check(tier, seed),
         "C09" => c09::check(tier, seed),
+        "C15" => c15::check(tier, seed),
         _ => return None,
     })
 }
 
+/// Re-execute one run of a batch from (tier, seed, run index).
+pub fn rerun(id: &str, tier: Tier, seed: u64, run: u64) -> Option<crate::report::RunOutcome> {
+    match id {
+        "C01" => c01::rerun(tier, seed, run),
+        "C02" => c02::rerun(tier, seed, run),
+        "C03" => c03::rerun(tier, seed, run),
+        "C05" => c05::rerun(tier, seed, run),
+        "C06" => c06::rerun(tier, seed, run),
+        "C08" => c08::rerun(tier, seed, run),
+        "C09" => c09::rerun(tier, seed, run),
+        "C15" => c15::rerun(tier, seed, run),
+        _ => None,
+    }
+}
+
+/// replay kind "rerun": execute the whole run again, in its own process, and
+/// look for the recorded violation class (or for the process dying again)
+fn replay_rerun(id: &str, doc: &Value) -> Option<String> {
+    let tier = if doc.get("tier")?.as_str()? == "thorough" { Tier::Thorough } else { Tier::Quick };
+    let seed = doc.get("seed")?.as_u64()?;
+    let run = doc.get("run")?.as_u64()?;
+    let want = doc.get("violation").and_then(|v| v.as_str()).unwrap_or("").to_string();
+    let id = id.to_string();
+    let r = crate::isolate::isolated(
+        || match rerun(&id, tier, seed, run) {
+            Some(o) => o.to_bytes(),
+            None => Vec::new(),
+        },
+        crate::isolate::run_timeout_s(),
+    );
+    match r {
+        Ok(bytes) => {
+            let o = crate::report::RunOutcome::from_bytes(&bytes)?;
+            if o.violations.iter().any(|v| v.class == want) {
+                Some(want)
+            } else {
+                o.violations.first().map(|v| v.class.clone())
+            }
+        }
+        Err(fail) => Some(format!("run's process died: {}", fail.describe())),
+    }
+}
+
 /// Some(Some(class)) reproduced, Some(None) not reproduced, None unknown property
 pub fn replay(id: &str, doc: &Value) -> Option<Option<String>> {
+    if doc.get("kind").and_then(|k| k.as_str()) == Some("rerun") {
+        return Some(replay_rerun(id, doc));
+    }
     Some(match id {
         "C01" => c01::replay(doc),
         "C02" => c02::replay(doc),
         "C03" => c03::replay(doc),
         "C05" => c05::replay(doc),
         "C06" => c06::replay(doc),
+        "C08" => c08::replay(doc),
         "C09" => c09::replay(doc),
+        "C15" => c15::replay(doc),
         _ => return None,
     })
 }
